@@ -5,7 +5,8 @@ regenerated from the source on every run (control flow kept, every other conditi
 * block balance: every function that opens or closes a scope (`self.bindings.enter_block()` / `exit_block()`) leaves
   the scope stack at the depth it found it on every path (early returns and `?` included), never closes a scope it
   did not open, every loop iteration is balanced, and every binding it makes (parameters, receiver, match payloads, loop
-  variables, catch variables) is made inside a scope it opened (only a `let` binds in the current scope);
+  variables, catch variables) is made inside a scope it opened (only a `let` binds in the current scope), in a loop that
+  checks a block per iteration (the cases of a `match`) inside a scope opened in that same iteration;
 * binding order: in the `let` arm and the `for` arm of infer_expr_, the expression that is evaluated before the
   binding exists (the right-hand side; the iterated expression) is checked before the destination is bound, on
   every path."""
@@ -35,7 +36,7 @@ ASSUMPTIONS = {
     "BindMap": "FxHashMap<SyntaxId, Vec<(SymbolName, Type)>> (opaque)", "all_bindings": "LocalBindings::all_bindings (for completion; reads only)", "vtb_insert_last": "`blocks.last_mut().expect(..)` followed by `insert`: panics on an empty stack (an obligation), adds the entry to the last block",
 }
 LEMMAS = {"lemma_lookup_skip": {"C19"}, "lemma_lookup_update": {"C19"}, "lemma_lookup_other": {"C19"}}
-UNVERIFIED = {"C19": [
+UNVERIFIED = {"C21": ["the scope slices say in which scope a name is bound while an expression is checked; that the type recorded for it is the right one is the type checker's inference (bounded annotation corpus only)"], "C19": [
     "the scope slices keep only control flow, the calls that open / close a scope, the calls that bind a destination and the calls that check the expression named in the arm; (LocalBindings get / set / enter_block / exit_block, set_binding and the local-variable path of infer_var are under contract here: a use of a local records the position of its innermost binding); that nothing else touches the scope stack or id_to_def_pos wrongly, is not proved (rename.bounded[rename_corpus] covers it on a corpus)",
 ]}
 
@@ -109,7 +110,11 @@ pub fn nondet_u8() -> (r: u8) { unimplemented!() }
 """
 
 _SHADOW = "fun main() {\n  let total = 10\n  let add = fun(n: Int): Int { n + total }\n  if total > 5 {\n    let total: Int = total * 2\n    println(string_repr(add(total)))\n  }\n  for total in [total, total + 1] { println(string_repr(total)) }\n  println(string_repr(total))\n}\nmain()\n"
+_ANNOT = ("fun describe(r: Result<Int, String>): String {\n  let value = \"no value\"\n  match r {\n    Ok(value) => { string_repr(value) }\n    Err(reason) => {\n      let shown = value\n      reason ^ \": \" ^ shown\n    }\n  }\n}\n"
+          "println(describe(Ok(42)))\nprintln(describe(Err(\"boom\")))\n")
 WITNESSES = [
+    {"match": r"tcscope\.", "kind": "refactor-corpus", "props": ["C21"], "expect": {}, "check_errors_not_more": True, "input": [_ANNOT],
+     "command": ["reftest-add-type-annotation", "{file}", "{offset}", "{offset}"], "note": "add_type_annotation in a match arm that reads an outer variable with the name of an earlier arm's payload"},
     {"match": r"tcscope\.", "kind": "rename-corpus", "props": ["C19"], "expect": {}, "note": "renames around hinted shadowing lets and a shadowing for variable",
      "input": [{"what": "outer variable read by a hinted shadowing let and by a for header", "at": "let total = 10", "delta": 4, "count": 8, "src": _SHADOW},
                {"what": "hinted shadowing let", "at": "let total: Int", "delta": 4, "count": 2, "src": _SHADOW},
@@ -129,6 +134,25 @@ class DepthSlicer(Slicer):
         self.n_enter = self.n_exit = self.n_bind = 0
         self.let_spans = let_spans       # (start, end) offsets of `let` arms: binding in the current scope is what a `let` does
         self._off = 0
+        self.n_loops_seen = 0
+        self.loop_ctx = []
+
+    USE_RX = re.compile(r"\bself\s*\.\s*(?:check_block|infer_block|visit_block)\s*\(")
+
+    def control(self, k, b, indent):
+        t = self.toks[k]
+        if t.text in ("while", "for", "loop"):
+            # the loops are numbered in the order in which they are emitted (the ghost snapshot __dN of
+            # _with_loop_invariants); a loop whose body checks a block and binds names must bind them in a scope
+            # opened in the same iteration, or the names of one iteration are still bound in the next one
+            self.n_loops_seen += 1
+            open_ = self._body_open(k, b) if t.text != "loop" else k + 1
+            body = self.text(open_, self.close(open_) + 1)
+            self.loop_ctx.append((self.n_loops_seen, bool(self.USE_RX.search(body))))
+            r = Slicer.control(self, k, b, indent)
+            self.loop_ctx.pop()
+            return r
+        return Slicer.control(self, k, b, indent)
 
     def effects_in(self, a, b, indent):
         if a >= b:
@@ -145,6 +169,9 @@ class DepthSlicer(Slicer):
             self.n_bind += 1
             if any(a <= self._off < b for (a, b) in self.let_spans):
                 return "{}   // a `let` binds in the current scope"
+            for (n_, uses) in reversed(self.loop_ctx):
+                if uses:
+                    return "proof { assert(depth > d_entry); assert(depth > __d%d); }   // binds inside a scope opened in this iteration" % n_
             return "proof { assert(depth > d_entry); }   // binds inside a scope this function opened"
         if m.group("op") == "enter_block":
             self.n_enter += 1
@@ -208,7 +235,8 @@ def build(tier):
     u = UnitFile("tcscope")
     u.raw(common.HEADER)
     u.raw(GLUE, kind="prelude")
-    props = {"C19"}
+    # the inferred types that add-type-annotation offers (C21) are read in the same scopes that rename (C19) resolves uses in
+    props = {"C19", "C21"}
     src = u.source(TC)
     # ---- block balance -----------------------------------------------------------------------------------
     hosts = [it for it in src.all_fns() if re.search(ENTER, it.text)]
